@@ -39,6 +39,9 @@ CLAIMED = {
  "C15": ("type-structure check of the gob-encoded profile, receiver-provenance and ordering analysis of the synchronisation transaction, constant-SQL inspection (DML through Query, table names), guard-fact dominance of every profile save by 'not from cache', send-dominance in the storage readers",
          "All module structs reachable from the stored profile have only exported fields; the cache synchronisation is exactly one destination transaction through which every statement runs, with deferred rollback and Commit last; no DML is issued through Query/QueryRow; every inserted table is emptied in the same transaction first; every save of a loaded profile is dominated by fromCache == false; storage readers answer only after a successful Prepare so that an unreachable primary falls back to the cache.",
          "SQL engine atomicity, crash points and byte-identical round trips are not decided; database/sql and encoding/gob are trusted.", "DESIGN.md §3 C15"),
+ "C16": ("must-lockset analysis (with caller entry locksets) against a frozen guard table; happens-before shaped signer rule (writes locked, admin reads locked, service listener after the ready receive); uninterrupted-critical-section rule for check-then-consume; load-modify-save detection for profiles",
+         "Every access to a guarded map holds its mutex outside single-threaded initialisation; the signer family is written under the state mutex or at start-up and read under it by the unsealing handlers, and the service listener starts only after the ready receive; challenge lookup+consume, the TOTP gate and the unsealing transition are single critical sections; every profile load-modify-save is detected - none is serialised today, recorded as 14 known findings (one per site) so that a new unserialised site is still reported.",
+         "Schedules are not enumerated and the race detector is not run; sync.Mutex semantics and the channel happens-before rule are trusted. Lock-free reads of the published keys from the admin log filter are reported as an observation, not an obligation.", "DESIGN.md §3 C16"),
  "C12": ("dominance of the token-minting calls by the conjunction of code/client/expiry/redirect/type facts, decision-structure classification of the client-authentication flag, shape check of the PKCE verifier, store-provenance of token fields",
          "Both minting calls of the token endpoint are dominated on all paths by the verified code, client authentication, client==code.sub, strict expiry, equal redirect_uri and the code type; the authentication flag is true only from PKCE (secret-less client) or a non-empty secret; the PKCE verifier compares against the challenge decrypted from the same code; token/code/userinfo fields have the stated provenance (field-store analysis).",
          "Trusts go-jose and JSON encoding. Field provenance is judged per store into the token structs in the current source.", "DESIGN.md §3 C12"),
